@@ -107,6 +107,13 @@ def assignCallee (exp : Option Expr) (calleeValue : Bytes) : PM (Option Expr) :=
   | some (.idx t (some (.ident i)) ix v c) =>
       pure (some (.idx t (some (.ident { i with base := some calleeValue })) ix v c))
   | some (.idx ..) => errHere "invalid-nested-index-access"; pure none
+  | some (.call t (some (.ident i)) ch f args blk) =>
+      -- a[i].b.f(): b is already the callee of f; hang a[i] at the root of that chain
+      -- (the Function identifier shares that chain in Go, so it sees the new root too)
+      let f' := match f with
+        | .ident fi => Expr.ident { fi with base := some calleeValue }
+        | other => other
+      pure (some (.call t (some (.ident { i with base := some calleeValue })) ch f' args blk))
   | some (.call t _ ch f args blk) => pure (some (.call t (some (.ident (baseIdent calleeValue))) ch f args blk))
   | some (.ident i) => pure (some (.ident { i with base := some calleeValue }))
   | _ => errHere "invalid-nested-index-access"; pure none
